@@ -290,6 +290,13 @@ pub fn build(case: &Case, ctx: &mut CaseCtx) -> Built {
                 }
             }
             advance(&mut app, 1, 5);
+            // some of those who voted leave the group afterwards: their ballots stay on the proposal
+            let leavers: Vec<String> = (0..=n).filter(|s| s % 3 == 1).map(|s| cands[s].to_string()).collect();
+            if !leavers.is_empty() {
+                must(exec(&mut app, &owner, &group, &cw4_group::msg::ExecuteMsg::UpdateMembers { remove: leavers, add: vec![] }), "group update (voters leave)");
+                ctx.count("flex_votes_voters_left_the_group");
+            }
+            advance(&mut app, 1, 5);
         }
         Listing::FlexProposals | Listing::FlexReverse => {
             descending = case.listing == Listing::FlexReverse;
